@@ -20,7 +20,7 @@ PROPS = {
  },
  "C13": {
   "modules": ["OsmoVerif.Props.C13", "OsmoVerif.Props.C13SigFig", "OsmoVerif.Props.C13Log", "OsmoVerif.Props.C13Exp2"],
-  "min_theorems": 74,
+  "min_theorems": 76,
   "fingerprints": ["Osmomath.MonotonicSqrt*", "Osmomath.SigFigRound", "Osmomath.Exp2", "Osmomath.exp2ChebyshevRationalApprox",
                    "Osmomath.BigDec_LogBase2", "Osmomath.Pow", "Osmomath.PowApprox", "Osmomath.AbsDifferenceWithSign",
                    "Osmomath.BinarySearch*", "Osmomath.ErrTolerance_*"],
@@ -36,7 +36,7 @@ PROPS = {
                   "FALSE as literally stated (witness theorems, tolerated by the oracle): TickLog is not within 1e-32*6932 absolutely - the coded constant tickLogOf2 has 33 significant "
                   "digits, so the result has a relative error 2e-33 (9.2e-28 at x = 2^64); Exp2 is not monotone in the last digits (adjacent inputs around 0.5 decrease by one ulp; "
                   "quasi-monotone within 2e-21 relative is proved); SigFigRound is not monotone/idempotent for tenToSigFig = 1 or not a multiple of ten (never passed by the code base)",
-                  "proved for all inputs: Exp2 relative error <= 1e-21 on [0,512] (documented 1e-18): rounding error <= 70e-36 against the exact rational function AND the analytic accuracy "
+                  "proved for all inputs: Exp2 returns exactly on [0,512] and its relative error is <= 1e-21 there (documented 1e-18): rounding error <= 70e-36 against the exact rational function AND the analytic accuracy "
                   "|P(X)/Q(X) - 2^X| <= 1e-21 on [0,1] by a kernel-evaluated certificate (Taylor enclosure of 2^X at 39-decimal bounds of ln 2 + exact Taylor-shift bound of two degree-29 "
                   "rational polynomials on 16 subintervals); SigFigRound (half-unit bound sharp for 10^s, +1 ulp truncation for general t, grid form, idempotence s>=1, monotonicity for 10|t, "
                   "exact success condition); LogBase2 |error| <= 89e-36 (documented 1e-32), monotone, total; Ln/TickLog/CustomBaseLog error = base-2 error scaled by the base change + half an "
